@@ -348,11 +348,78 @@ let run_unify (args : sexp list) : string =
           String.concat " " (List.mapi (fun i _ -> ws (TVar (nat_of_int i, false))) names) ^ ") " ^ string_of_int (n + 1)))
   | _ -> failwith "bad unify case"
 
+(* ---------- LTerm API (C21) ---------- *)
+let run_lterm (args : sexp list) : string =
+  let names = ["x0"; "x1"; "x2"] in
+  let idx = List.mapi (fun i n -> (n, i)) names in
+  let rec tr (t : term) : term =
+    (match t with
+     | TVar (_, true) -> t
+     | TVar (n, false) ->
+       let name = Hashtbl.fold (fun k v acc -> if v = int_of_nat n then k else acc) names_tbl "" in
+       (match List.assoc_opt name idx with Some i -> TVar (nat_of_int i, false) | None -> failwith ("unbound " ^ name))
+     | TCons (h, tl) -> TCons (tr h, tr tl)
+     | TComp (g, cs) -> let rec go = function TNil -> TNil | TMore (t, r) -> TMore (tr t, go r) in TComp (g, go cs)
+     | other -> other) in
+  let pt e = tr (parse_term e) in
+  let pts e = (match e with L xs -> List.map pt xs | _ -> failwith "list") in
+  let show t =
+    let b = Buffer.create 32 in
+    let rec sh (t : term) =
+      (match t with
+       | TVar (v, false) -> buf_add b (List.nth names (int_of_nat v))
+       | TVar (v, true) -> buf_add b "_"
+       | TCons (_, _) ->
+         buf_add b "(";
+         let rec go first t = (match t with
+           | TCons (h, tl) -> if not first then buf_add b " "; sh h; go false tl
+           | TEmpty -> ()
+           | other -> buf_add b " . "; sh other) in
+         go true t; buf_add b ")"
+       | TComp (tag, cs) ->
+         let name = Hashtbl.fold (fun k v acc -> if v = int_of_nat tag then k else acc) names_tbl "?" in
+         let name = if String.length name > 5 then String.sub name 5 (String.length name - 5) else name in
+         buf_add b ("{" ^ name);
+         let rec go = function TNil -> () | TMore (t, r) -> buf_add b " "; sh t; go r in
+         go cs; buf_add b "}"
+       | other -> show_term b other) in
+    sh t; Buffer.contents b in
+  let showl l = "[" ^ String.concat " " (List.map show l) ^ "]" in
+  let showo = function Some t -> show t | None -> "none" in
+  let panico = function Some t -> show t | None -> "panic" in
+  match args with
+  | [A "eq"; a; b] ->
+    let (a, b) = (pt a, pt b) in
+    let e = term_eqb a b in
+    Printf.sprintf "%b sym=%b refl=%b hash_equal=%b map_lookup=%b" e (term_eqb b a) (term_eqb a a)
+      (if e then true else (hash_tokens a = hash_tokens b)) e
+  | [A ("from_vec" | "from_array" | "collect"); l] -> show (lt_collect (pts l))
+  | [A ("improper" | "improper_array"); l] -> panico (lt_improper (pts l))
+  | [A ("iter" | "into_iter" | "iter_mut"); t] -> showl (lt_iter (pt t))
+  | [A "iter_mut_set"; t; w] ->
+    let w = pt w in
+    let rec set (t : term) : term = (match t with
+      | TEmpty -> TEmpty
+      | TCons (_, tl) -> TCons (w, (match tl with TEmpty -> TEmpty | TCons (_, _) -> set tl | _ -> w))
+      | _ -> w) in
+    show (set (pt t))
+  | [A "extend"; t; c] -> panico (lt_extend (pt t) (pts c))
+  | [A "index"; t; A n] -> panico (lt_index (pt t) (nat_of_int (int_of_string n)))
+  | [A "head"; t] -> showo (lt_head (pt t))
+  | [A "tail"; t] -> showo (lt_tail (pt t))
+  | [A "is_list"; t] -> string_of_bool (lt_is_list (pt t))
+  | [A "is_empty"; t] -> string_of_bool (lt_is_empty (pt t))
+  | [A "is_improper"; t] -> string_of_bool (lt_is_improper (pt t))
+  | [A "is_non_empty_list"; t] -> string_of_bool (lt_is_non_empty_list (pt t))
+  | [A "contains"; t; v] -> string_of_bool (lt_contains (pt t) (pt v))
+  | _ -> failwith "bad lterm case"
+
 let run_case (e : sexp) : string =
   match e with
   | L (A "fd" :: args) -> run_fd args
   | L (A "prog" :: args) -> run_prog args
   | L (A "unify" :: args) -> run_unify args
+  | L (A "lterm" :: args) -> run_lterm args
   | _ -> failwith "unknown case kind"
 
 let () =
